@@ -620,6 +620,29 @@ func (r *svRig) muHeld() bool {
 	return len(c) > 0 && c[0] < 0
 }
 
+// fwdTarget: when the read loop is parked forwarding an envelope into a stream's queue, the handler it
+// waits for (that handler's return releases it); -1 otherwise.
+func (r *svRig) fwdTarget() int {
+	if !r.muHeld() || r.wblocked {
+		return -1
+	}
+	i := len(r.delivered) - r.ep.Pending() - 1
+	if i < 0 || i >= len(r.delivered) {
+		return -1
+	}
+	id := r.delivered[i].Id
+	for k := len(r.hs) - 1; k >= 0; k-- {
+		h := r.hs[k]
+		if !h.unary && h.seq >= 0 && h.seq < len(r.delivered) && r.delivered[h.seq].Id == id {
+			if h.returned {
+				return -1
+			}
+			return k
+		}
+	}
+	return -1
+}
+
 func (r *svRig) snapshot() svObs {
 	r.mu.Lock()
 	sort.Slice(r.newH, func(i, j int) bool { return r.newH[i].seq < r.newH[j].seq })
@@ -715,7 +738,7 @@ func (r *svRig) do(a *SAct) bool {
 		if h.unary && (a.Hop.Op == "recv" || a.Hop.Op == "send") {
 			return true
 		}
-		if !h.unary && a.Hop.Op == "return" && r.muHeld() {
+		if !h.unary && a.Hop.Op == "return" && r.muHeld() && r.fwdTarget() != a.H {
 			return false
 		}
 		h.gate <- a.Hop
